@@ -123,7 +123,37 @@ def r2_key_only_for_call_next(ctx):
     law_code_key(ctx)
 
 
+MISS_LAWS = {
+    "errors-before-no-method": ("continuation:errors-before-no-method", "a continuation lookup raises the ambiguity filed under its key, and answers 'No method' for the argument types only when nothing was filed or stored", "call_next into a tied rank reports 'No method' instead of the ambiguity (or the last method's call_next does not report 'No method')"),
+    "table-before-no-method": ("continuation:table-before-no-method", "a continuation lookup returns the continuation that resolving the bare key has just stored", "the first call_next for a type tuple not seen before answers 'No method' although a lower method exists"),
+    "forces-bare-resolution": ("continuation:forces-bare-resolution", "a continuation lookup first has the bare key resolved - once, and its error propagates", "the first call_next for a type tuple fails, or resolves over and over"),
+    "fresh-lookup-fallback": ("continuation:fresh-lookup-fallback", "when the caller's code is not among the applicable methods, call_next behaves like a fresh call (returns the bare-key entry)", "a caller that is not applicable to the new arguments no longer falls back to a fresh lookup"),
+    "main:errors-before-reread": ("main:errors-before-reread", "a bare key is resolved once; then the error filed for it is raised, else the stored entry returned", "an ambiguous first rank is not reported, or a resolved call is resolved again"),
+    "no-recomputation": ("continuation:no-recomputation", "a continuation lookup for a type tuple that is already resolved does not run the resolution again", "every call_next that ends the chain re-runs the whole resolution, user hooks included"),
+}
+
+
 def errors_consulted(ctx):
+    """The miss handler's laws, by abstract execution (missexec); the statement-shape reading below is the fallback."""
+    from . import missexec
+    from .common import run_fallback
+
+    multi = A.multimap(ctx.repo)
+    miss = multi.methods["__missing__"]
+    ctx.touch(miss)
+    try:
+        if "miss_checked" not in ctx.cache:
+            ctx.cache["miss_checked"] = missexec.check(ctx)
+        problems = ctx.cache["miss_checked"]
+    except AnalysisError as e:
+        run_fallback(ctx, _errors_consulted_shape, e, "cache-miss handler")
+        return
+    for law, (key, text, why) in MISS_LAWS.items():
+        ps = problems[law]
+        ctx.ob(f"{miss.key}:{key}", miss.loc(), f"{text} (miss handler abstractly executed on 9 lookups)", not ps, "; ".join(ps[:2]) + ": " + why)
+
+
+def _errors_consulted_shape(ctx):
     multi = A.multimap(ctx.repo)
     miss = multi.methods["__missing__"]
     ctx.touch(miss)
